@@ -469,7 +469,7 @@ FIXED = [
     'any([1, 2], $ > 1)', 'true and false', 'false or 1', '[{a => 1}, {a => 2}].a', '[let(x => 1) -> $x, $x]',
     'let(x => 1) -> [1, 2].select($ + $x)', 'def(f, $ + 1) -> [1, 2].select(f($))', '[1, 2].select(let(y => $) -> $y)',
     'with(7) -> [$, [1].select($)]', '[1, 2].len()', 'len([1, 2])', '[1, 2].take(1)', '{a => [1, {b => 2}]}', 'nosuch(1)',
-    '[1].nosuch()', '1.a', '[3, 1, 2].select($ + 1).take(2)', '[1, 2].select($x)', 'dict(a => 1)', 'list([1], 2)',
+    '[1].nosuch()', '1.a', 'def(f_, $ + 1) -> [f(1), f__(2)]', 'def(g, 1) -> g_()', '[3, 1, 2].select($ + 1).take(2)', '[1, 2].select($x)', 'dict(a => 1)', 'list([1], 2)',
 ]
 
 
